@@ -5,7 +5,7 @@ from props.common import TRUSTED_BASE, ASSUMPTIONS
 
 ID = "C11"
 FORMAT_GROUP = "total"
-LEAN_MODULES = ["LexVerif.Props.C11", "LexVerif.Props.C11Int", "LexVerif.Props.Literals.ParseFloatParse", "LexVerif.Props.Literals.ParseFloatShared", "LexVerif.Props.Literals.ParseIntegerAlgorithm", "LexVerif.Props.Literals.UtilSkip", "LexVerif.Props.Literals.UtilNoskip", "LexVerif.Props.Literals.UtilIterator", "LexVerif.Props.Literals.UtilDigit", "LexVerif.Props.Literals.ParseFloatApi", "LexVerif.Props.Literals.ParseIntegerApi"]
+LEAN_MODULES = ["LexVerif.Props.C11", "LexVerif.Props.C04Format", "LexVerif.Props.C11Int", "LexVerif.Props.Literals.ParseFloatParse", "LexVerif.Props.Literals.ParseFloatShared", "LexVerif.Props.Literals.ParseIntegerAlgorithm", "LexVerif.Props.Literals.UtilSkip", "LexVerif.Props.Literals.UtilNoskip", "LexVerif.Props.Literals.UtilIterator", "LexVerif.Props.Literals.UtilDigit", "LexVerif.Props.Literals.ParseFloatApi", "LexVerif.Props.Literals.ParseIntegerApi"]
 GEN = ["literals"]
 TRUSTED = TRUSTED_BASE + [
     "the two relations are checked on the IMPLEMENTATION's results (second stage: the complete parser is re-run on the prefix "
@@ -41,8 +41,9 @@ LEVEL_TEXT = ("Props/C11.lean (float syntax model, every feature set): complete_
               "(int_partial_prefix_iff), witness '+a' -> (0,1) vs '+' -> Empty(1). Formats WITH a separator byte: partial_prefix is "
               "not proved (only the counter-example class is exhibited).")
 LEVEL_NOTE = ("Trusted: Lean kernel; rustc; that the models mirror the Rust control flow (correspondence only). The integer parser with the "
-              "`format` feature (prefix/suffix/separators/leading-zero flags) has no Lean model: its four violation classes (I2-I4 in "
-              "the run) come from the correspondence alone.")
+              "`format` feature (prefix/suffix/separators/leading-zero flags) is modelled by Model.ParseIntFormat; Props/C04Format.lean proves "
+              "clause 1 for formats without separator/prefix/suffix/leading-zero flag and decides the witnesses I2 (no_integer_leading_zeros '0'), "
+              "I3 (suffix '1+1'), I4 (prefix '0xg') on the model.")
 
 
 def feature_sets(tier):
